@@ -78,8 +78,9 @@ theorem loop_static (h : ReqHdr) (sdu pl : List Nat) (st st' : BmcState) (CI : C
     intro fuel s c hf hs hc hl
     obtain ⟨n, rfl⟩ : ∃ n, fuel = n + 1 := ⟨fuel - 1, by omega⟩
     obtain ⟨d, r, c', h1, h2, h3, _, h5, _⟩ := hfact c hc
-    obtain ⟨r1, r2⟩ := relay_lost rel s hl.1 d r st (by rw [hs]; exact h5)
-    obtain ⟨ds, s', c'', i1, i2, i3, i4, i5, i6⟩ := ih n (P s d).1 c' (by omega) r1 h2 (hl.2 d)
+    have r1 := relay_lost rel s hl.1 d r st (by rw [hs]; exact h5)
+    have r2 := hl.2.1 d
+    obtain ⟨ds, s', c'', i1, i2, i3, i4, i5, i6⟩ := ih n (P s d).1 c' (by omega) r1 h2 (hl.2.2 d)
     refine ⟨d :: ds, s', c'', ?_, by simp [i2], ?_, i4, i5, i6⟩
     · rw [tryLoop_lost md5 P cfg h sdu n s c c' d h1 r2, i1]
     · intro x hx
@@ -117,11 +118,12 @@ theorem loop_session (h : ReqHdr) (cmd : Nat) (data rdata : List Nat) (ph : Nat 
     obtain ⟨n, rfl⟩ : ∃ n, fuel = n + 1 := ⟨fuel - 1, by omega⟩
     obtain ⟨d, r, h1, h2, h3, _, h5, _⟩ := bmc_inSession md5 hmd5 b cfg conf (π s) c h a last cmd data rdata ph hh ha
       live hlen hcmd (hin (π s))
-    obtain ⟨r1, r2⟩ := relay_lost rel s hl.1 d r _ h5
+    have r1 := relay_lost rel s hl.1 d r _ h5
+    have r2 := hl.2.1 d
     have live' : Live b cfg a (some (nextSeq c.s.seq)) (π (P s d).1) { c with s := { c.s with seq := nextSeq c.s.seq } } :=
       ⟨by rw [r1], by rw [r1]; exact live.outSeq, live.attached, live.auth, live.sid, live.act, live.pw, rfl,
         nextSeq_lt _ live.seqLt⟩
-    obtain ⟨ds, s', i1, i2, i3, i4, i5, i6⟩ := ih n (P s d).1 _ _ (by omega) live' (hl.2 d)
+    obtain ⟨ds, s', i1, i2, i3, i4, i5, i6⟩ := ih n (P s d).1 _ _ (by omega) live' (hl.2.2 d)
     refine ⟨d :: ds, s', ?_, by simp [i2], ⟨h2, i3⟩, ?_, ?_, i6⟩
     · rw [tryLoop_lost md5 P cfg h _ n s c _ d h1 r2, i1]
       rfl
@@ -194,8 +196,8 @@ theorem run_challenge (s : σ) (c : Client) (a : Nat) (sup : List (List Nat)) (Q
   refine ⟨ds, s', h2, h3, h5, h6, ?_⟩
   intro sent
   have e : hdrOf cfg { c with s := { c.s with auth := a } } 57 = hdrOf cfg c 57 := rfl
-  simp only [estabChallenge, hsup, hch, Option.getD_some, Gen.RmcpFormats.netfnApp, Gen.RmcpFormats.cmdGetChallenge,
-    exchange_eq, e, h1, decode_challenge _ _ conf.chalLen]
+  simp only [estabChallenge, hsup, hch, Option.getD_some, Option.isNone_some, Bool.false_and, Bool.false_eq_true, if_false,
+    Gen.RmcpFormats.netfnApp, Gen.RmcpFormats.cmdGetChallenge, exchange_eq, e, h1, decode_challenge _ _ conf.chalLen]
 
 include hmd5 conf rel in
 theorem run_activate (s : σ) (c : Client) (a : Nat) (Q : σ → Prop) (k : Nat) (hk : k ≤ cfg.maxRetries)
@@ -301,9 +303,10 @@ theorem run_close (s : σ) (c : Client) (a l : Nat) (Q : σ → Prop) (k : Nat) 
     (fun st q => inSession_close md5 b st a q _ rfl rfl (by simp [reqOf, live.sid])) Q k (cfg.maxRetries + 1) s _
     (some l) (by omega) live1 hl
   simp only [hseq, live.sid] at h1 h3 h4 h5
+  simp only [live.attached] at h1
   refine ⟨ds, s', h2, h3, h4, h6, by rw [h5], by rw [h5], ?_⟩
-  simp only [close, live.act, Bool.true_eq_false, if_false, Gen.RmcpFormats.netfnApp, Gen.RmcpFormats.cmdClose,
-    exchange_eq, live.sid, h1, decode_close]
+  simp only [close, live.attached, live.act, Bool.true_eq_false, if_false, Gen.RmcpFormats.netfnApp,
+    Gen.RmcpFormats.cmdClose, exchange_eq, live.sid, h1, decode_close]
 
 include hmd5 conf rel in
 /-- `n` requests in a row, each losing at most `max_retries` datagrams: every datagram
